@@ -1,6 +1,7 @@
 package main
 
 import (
+	"fmt"
 	"os"
 	"go/token"
 	"go/types"
@@ -161,7 +162,104 @@ func derivesSliceOfField(v ssa.Value, field string) bool {
 	}, flowOpts{throughCalls: true})
 }
 
+// c09R3: how a site's handler chain is nested, as a decision table (E10): AddMiddleware is evaluated for zero to four
+// middleware in order, NewServer for the site; the chain stored for the site must be m0(m1(…(file server))) — the
+// first added outermost, the static file server innermost.  (c09R3Patterns, the loop-shape formulation, is kept for
+// reference and no longer registered.)
 func c09R3(h H) {
+	r := h.r
+	r.Rule("R3", "middleware nesting = order of addition, as a decision table (E10): after AddMiddleware(m0) … AddMiddleware(mk), k up to 4, NewServer (http.Server construction and TLS set-up being oracles) stores for the site the handler m0(m1(…mk(static file server)…)): the first middleware added is outermost, each wraps exactly the next, and the static file server of the site's root is innermost", 1)
+	ns := h.fn("R3", hs, "NewServer")
+	am := h.fn("R3", hs, "(*SiteConfig).AddMiddleware")
+	if ns == nil || am == nil {
+		return
+	}
+	groupT, ok := ns.Params[1].Type().Underlying().(*types.Slice)
+	if !ok {
+		r.Unresolve("R3", "NewServer: second parameter is not a slice of sites")
+		return
+	}
+	siteT := groupT.Elem().(*types.Pointer).Elem()
+	srvT := ns.Signature.Results().At(0).Type().(*types.Pointer).Elem()
+	var httpSrvT types.Type = types.Typ[types.Int]
+	if st, ok := underlying(srvT).(*types.Struct); ok {
+		for i := 0; i < st.NumFields(); i++ {
+			if p, ok := st.Field(i).Type().(*types.Pointer); ok && strings.HasSuffix(p.Elem().String(), "net/http.Server") {
+				httpSrvT = p.Elem()
+			}
+		}
+	}
+	bad := ""
+	nrun := 0
+	for k := 0; k <= 4 && bad == ""; k++ {
+		nrun++
+		site := &aobj{name: "site", typ: siteT, f: map[string]aval{}}
+		site.in = func(ob *aobj, path string, t types.Type) aval {
+			switch path {
+			case "Addr.Original", "Addr.Host":
+				return astr("a.example")
+			case "Root":
+				return astr("/srv/site")
+			case "FallbackSite":
+				return abool(false)
+			}
+			if _, isSl := underlying(t).(*types.Slice); isSl {
+				return anil{}
+			}
+			return aunk{"site field " + path}
+		}
+		env := &absEnv{globals: map[string]*aobj{}, noFork: true, maxSteps: 400000}
+		env.ext = func(callee string, args []aval) (aval, bool) {
+			switch {
+			case strings.HasSuffix(callee, "makeHTTPServerWithTimeouts"):
+				return aptr{&aobj{name: "http.Server", typ: httpSrvT, f: map[string]aval{}}, ""}, true
+			case strings.HasSuffix(callee, "makeHTTPServerWithHeaderLimit"):
+				return args[0], true
+			case strings.HasSuffix(callee, "makeTLSConfig"):
+				return atuple{anil{}, anil{}}, true
+			case strings.HasPrefix(callee, "callback:m"):
+				return aiface{aptr{&aobj{name: "handler of " + strings.TrimPrefix(callee, "callback:"), typ: types.Typ[types.Int], f: map[string]aval{"inner": args[0]}}, ""}, types.Typ[types.Int]}, true
+			}
+			return nil, false
+		}
+		desc := fmt.Sprintf("%d middleware added", k)
+		for i := 0; i < k; i++ {
+			if _, und := env.run(am, []aval{aptr{site, ""}, acb{fmt.Sprintf("m%d", i)}}); und != "" {
+				bad = desc + ": AddMiddleware undecided — " + und
+			}
+		}
+		if bad != "" {
+			break
+		}
+		if _, und := env.run(ns, []aval{astr("127.0.0.1:8080"), aslice{[]*aobj{site}}}); und != "" {
+			bad = desc + ": NewServer undecided — " + und
+			break
+		}
+		cur := env.load(site, "middlewareChain")
+		for i := 0; i < k && bad == ""; i++ {
+			iv, _ := cur.(aiface)
+			p, ok := iv.val.(aptr)
+			if !ok || p.obj.name != fmt.Sprintf("handler of m%d", i) {
+				bad = fmt.Sprintf("%s: layer %d of the site's handler chain (counted from outside) is %s, specification says the handler made by m%d", desc, i, describeAval(cur), i)
+				break
+			}
+			cur = p.obj.f["inner"]
+		}
+		if bad == "" {
+			iv, isI := cur.(aiface)
+			if !isI || !strings.HasSuffix(iv.typ.String(), "staticfiles.FileServer") {
+				bad = fmt.Sprintf("%s: the innermost handler is %s, specification says the static file server", desc, describeAval(cur))
+			} else if fsv, ok := iv.val.(astruct); ok {
+				if root, _ := ifaceVal(fsv.f["Root"]).(astr); string(root) != "/srv/site" {
+					bad = fmt.Sprintf("%s: the file server's root is %s, the site's root is /srv/site", desc, describeAval(fsv.f["Root"]))
+				}
+			}
+		}
+	}
+	r.Check(bad == "", "R3", "httpserver.NewServer/handler-chain-table", ns.Pos(), "the first middleware added is the outermost handler, the static file server the innermost", fmt.Sprintf("%d chains built", nrun), bad)
+}
+
+func c09R3Patterns(h H) {
 	r := h.r
 	r.Rule("R3", "middleware nesting = list order: NewServer applies site.middleware[i] to the stack with i running from len-1 down to 0 (the first listed directive ends up outermost) starting from the static file server; AddMiddleware appends to the list", 3)
 	fn := h.fn("R3", hs, "NewServer")
